@@ -237,12 +237,21 @@ def read_file_dispatch(ctx: Ctx, part: Partial):
     try:
         with tempfile.TemporaryDirectory(prefix="vf-c07-") as td:
             exts = sorted(_DOC) + ["tar.gz", "tar.bz2", "tar.xz"]
+            os.makedirs(os.path.join(td, "blobs"), exist_ok=True)
             for i, ext in enumerate(exts):
-                for name in (f"f{i}.{ext}", f"Mixed Name.v2.{ext.upper()}"):
+                other = exts[(i + 7) % len(exts)]
+                for name in (f"f{i}.{ext}", f"Mixed Name.v2.{ext.upper()}", f"link-to-blob{i}.{ext}", f"link-to-other{i}.{ext}"):
                     p = os.path.join(td, name)
                     payload = f"payload-{i}-{name}".encode()
-                    with open(p, "wb") as fh:
-                        fh.write(payload)
+                    if name.startswith("link-"):
+                        # the path is a symbolic link whose target has no extension / another supported extension: routing is by the path given
+                        target = os.path.join(td, "blobs", f"{i:04x}c2" if "blob" in name else f"stored{i}.{other}")
+                        with open(target, "wb") as fh:
+                            fh.write(payload)
+                        os.symlink(target, p)
+                    else:
+                        with open(p, "wb") as fh:
+                            fh.write(payload)
                     calls.clear()
                     try:
                         list(sharepoint2text.read_file(p))
